@@ -512,6 +512,7 @@ impl Property for C26Prop {
             })
         };
         ev!("reads:{}", reads_summary(&probe));
+        ctx::add_steps(probe.with_stats(|st| st.reads.len() as u64));
 
         // ---- oracle ----------------------------------------------------------------------------
         let p = prog.borrow();
@@ -649,7 +650,11 @@ impl Property for C26Prop {
                 (None, Some(e)) => {
                     violation(
                         "complete-frame-not-decoded",
-                        if matches!(end, End::Err(_)) { "Codec::decode returned an error for a frame within max" } else { "stream ended before a complete frame was yielded" },
+                        match &end {
+                            End::Err(e) if e.starts_with("Io(") => "Codec::decode left a complete frame in the buffer until end of stream",
+                            End::Err(_) => "Codec::decode returned an error for a frame within max",
+                            End::Eos => "stream ended before a complete frame was yielded",
+                        },
                         format!("item {i} ({}, {} bytes) was fully delivered to the reader but the stream ended with {end:?} after {} items", e.label(), lens[frames[i].idx.unwrap_or(0)], p.got.len()),
                     );
                     return;
